@@ -4,7 +4,7 @@
     and the models. *)
 From Coq Require Import String.
 From Coq Require Import List NArith ZArith Bool.
-From Verif Require Import Lib.Bytes Lib.Codec Lib.Path Lib.GoLib Cred.Sign Gen.CodeCred.
+From Verif Require Import Lib.Bytes Lib.Codec Lib.Path Lib.GoLib Cred.Sign Cred.Jwt Cred.PassCode Gen.CodeCred.
 Import ListNotations.
 Local Open Scope Z_scope.
 
@@ -88,3 +88,78 @@ Definition cands_TimeSigner_Check : list (Z * (Z * list N)) :=
 Definition cex_TimeSigner_Check :=
   cex_search Bool.eqb (fun x => gen_signer_TimeSigner_Check (cand_mac tt) (abs_window (fst x)) (fst (snd x)) (snd (snd x)))
              (fun x => ts_check cand_mac tt (fst x) (fst (snd x)) (snd (snd x))) cands_TimeSigner_Check.
+
+(** ** jwt.CheckTime: the two refusals are told apart by their message. *)
+Definition jwt_time_err (e : go_error) : option jerr :=
+  match e with
+  | None => None
+  | Some (GoErr _ m) =>
+      if String.eqb m "token issued in the future" then Some EFuture
+      else if String.eqb m "token expired" then Some EExpired
+      else Some EClaims   (* not an answer of the model's check_time *)
+  end.
+
+Definition jerr_tag (e : option jerr) : N :=
+  match e with None => 0 | Some EFuture => 1 | Some EExpired => 2 | Some _ => 3 end%N.
+
+(** Claim times (seconds) against instants (nanoseconds) around them, the
+    grace period included. *)
+Definition cands_CheckTime : list (Z * (Z * Z)) :=
+  pairs [0; 1000; 1700000000; -5] (pairs [0; 1000; 1001; 1700003600; -5]
+    [0; 1; 999999999999; 1000000000000; 1000000000001; 700000000000; 699999999999; 700000000001;
+     1001000000000; 1001000000001; 1700000000000000000; 1700003600000000000; 1700003600000000001;
+     1699999700000000000; 1699999700000000001; -5000000000; -4999999999]).
+
+Definition cex_CheckTime :=
+  cex_search N.eqb
+    (fun x => jerr_tag (jwt_time_err (snd (gen_jwt_CheckTime (fst x) (fst (snd x)) (snd (snd x))))))
+    (fun x => jerr_tag (check_time (mkC [] [] [] (fst (snd x)) (fst x) [] []) (snd (snd x))))
+    cands_CheckTime.
+
+(** ** roles.checkPassCode: the model's result numbers, by error class and
+    message. *)
+Definition pc_err_code (e : go_error) : N :=
+  match e with
+  | None => 0
+  | Some (GoErr k m) =>
+      if String.eqb k "Internal" then 9
+      else if String.eqb m "empty passcode" then 2
+      else if String.eqb m "no passcode set" then 3
+      else if String.eqb m "passcode wrong too many times" then 4
+      else if String.eqb m "passcode already consumed" then 5
+      else if String.eqb m "passcode not valid yet" then 6
+      else if String.eqb m "passcode expired" then 7
+      else if String.eqb m "passcode incorrect" then 8
+      else 99
+  end%N.
+
+(** Passcode texts: the model names them by numbers, 0 = the empty string. *)
+Definition cand_text (n : N) : list N := match n with 0%N => [] | _ => [48 + n; 65]%N end.
+
+(** The arguments the Go function reads off [code *passCode]. *)
+Definition pc_args (pc : option pcode) : pcode :=
+  match pc with Some c => c | None => mkPC 0 false 0 false 0 false 0 end.
+
+Definition run_checkPassCode (text : N -> list N) (claim : N) (pc : option pcode) (now : Z) : go_error :=
+  let c := pc_args pc in
+  gen_roles_checkPassCode (text claim) (match pc with None => true | Some _ => false end)
+    (negb (p_has_valid c)) (negb (p_has_expire c)) (p_tried c) (p_consumed c)
+    (p_valid c) (p_expire c) (text (p_code c)) now.
+
+Definition cand_pcodes : list (option pcode) :=
+  None ::
+  map Some
+    (flat_map (fun tried =>
+       flat_map (fun consumed =>
+         [mkPC 1 true 100 true 200 consumed tried; mkPC 2 true 100 true 200 consumed tried;
+          mkPC 1 false 100 true 200 consumed tried; mkPC 1 true 100 false 200 consumed tried;
+          mkPC 0 true 100 true 200 consumed tried])
+         [false; true]) [0; 9; 10; 11; 12; -1]).
+
+Definition cands_checkPassCode : list (N * (option pcode * Z)) :=
+  pairs [0; 1; 2; 3]%N (pairs cand_pcodes [99; 100; 101; 199; 200; 201; 0]).
+
+Definition cex_checkPassCode :=
+  cex_search N.eqb
+    (fun x => pc_err_code (run_checkPassCode cand_text (fst x) (fst (snd x)) (snd (snd x))))
+    (fun x => checkPassCode (fst x) (fst (snd x)) (snd (snd x))) cands_checkPassCode.
